@@ -252,12 +252,16 @@ CLAIMED['C17'] = dict(
          'statechart placed under a new compound root - the host shape the check uses - produces exactly the runs of the statechart '
          'alone: every function of the interpreter model commutes with the embedding (C17_wrap_step, C17_wrap_queue, C17_wrap_run, '
          'C17_wrap_init), under a decidable hypothesis evaluated on every plugged guest (wrap_okb) whose two essential clauses are '
-         'proved necessary (the root has no final child; the root is active when a step starts).',
+         'proved necessary (the root has no final child; the root is active when a step starts). (composition, C17ComposeProofs) for the '
+         'host the check uses, what copy_from_statechart builds IS the wrapped renamed guest up to the order of dictionary entries and '
+         'transitions (copy_into_plug_is_wrap; equality of the transition lists refuted), and its run is the image of the run of the '
+         'guest alone with the new root entered first (C17_wrap_rename_run: exact; C17_copy_run: up to the renaming of transition '
+         'indices and the order-insensitive state relation of C07, until the first exception).',
     design_ref='DESIGN.md section 6 (C17)',
     note='Trusted: Coq kernel+VM; hand-written model validated differentially; the evaluator must not depend on state names (code is not '
          'rewritten by rename_state); the copied sub-chart is proved to be the renamed image of the source (structure) and a chart under a '
-         'new root to behave as on its own (embedding); the three theorems (copy structure, renaming equivariance, embedding) are not '
-         'composed into one statement, and hosts with other active regions beside the plug are covered by lock-step runs only.',
+         'new root to behave as on its own (embedding), and the three are composed for the host shape of the check (hroot > plug); hosts '
+         'with other active regions beside the plug, and runs after a first exception, are covered by lock-step runs only.',
     technique='Coq proof (equivariance of every model function) + metamorphic differential runs (rename_state, copy_from_statechart)')
 
 CLAIMED['C18'] = dict(
